@@ -184,6 +184,84 @@ theorem dialerUpgrade_flat (cfg : DialCfg) (nonce : Bytes) (s1 s2 : Src) (h1 : s
       | some e => exact ⟨rfl, rfl, g3⟩
       | none => exact ⟨rfl, rfl, g3⟩
 
+/-! ### the loops' fuel is never exhausted (C15: the handshake cannot spin) -/
+
+theorem lineSpec_shrinks (all : Bytes) (fin : Fin) (h : (lineSpec all fin).2.1 = none) :
+    (lineSpec all fin).2.2.length < all.length := by
+  unfold lineSpec at h ⊢
+  cases hi : all.idxOf? 10 with
+  | none => simp [hi] at h
+  | some i =>
+    obtain ⟨hlt, _, _⟩ := List.idxOf?_eq_some_iff.mp hi
+    simp only [List.length_drop]; omega
+
+theorem readLine_shrinks (b : Bufio) (hok : BOK b) (h : (readLine b).2.1 = none) :
+    (readLine b).2.2.all.length < b.all.length := by
+  obtain ⟨a1, _, _, _⟩ := readLine_spec b hok
+  have e1 : (readLine b).2.1 = (lineSpec b.all b.src.fin).2.1 := congrArg (fun x => x.2.1) a1
+  have e2 : (readLine b).2.2.all = (lineSpec b.all b.src.fin).2.2 := congrArg (fun x => x.2.2) a1
+  rw [e2]
+  exact lineSpec_shrinks _ _ (by rw [← e1]; exact h)
+
+/-- Every header line read consumes at least its LF: the header loop of Upgrader.Upgrade ends by
+    itself — giving it more fuel than the bytes there are changes nothing. -/
+theorem hdrLoop_fuel (cfg : UpCfg) (n m : Nat) (b : Bufio) (st : UpState) (err : Option HsErr) (hok : BOK b)
+    (hn : b.all.length < n) (hm : n ≤ m) : hdrLoop cfg n b st err = hdrLoop cfg m b st err := by
+  induction n generalizing m b st err with
+  | zero => omega
+  | succ n ih =>
+    cases m with
+    | zero => omega
+    | succ m =>
+      unfold hdrLoop
+      by_cases he : err.isSome = true
+      · rw [if_pos he, if_pos he]
+      · rw [if_neg he, if_neg he]
+        have hs := readLine_shrinks b hok
+        obtain ⟨_, ok', _, _⟩ := readLine_spec b hok
+        rcases hr : readLine b with ⟨l, e, b'⟩
+        rw [hr] at hs ok'
+        simp only at hs ok' ⊢
+        cases e with
+        | some f => rfl
+        | none =>
+          simp only
+          by_cases hl : l.isEmpty = true
+          · rw [if_pos hl, if_pos hl]
+          · rw [if_neg hl, if_neg hl]
+            cases httpParseHeaderLine l with
+            | none => rfl
+            | some kv => exact ih m b' _ _ ok' (by have := hs rfl; omega) (by omega)
+
+theorem dlLoop_fuel (cfg : DialCfg) (nonce : Bytes) (n m : Nat) (b : Bufio) (hs : Handshake) (seen : Nat) (hok : BOK b)
+    (hn : b.all.length < n) (hm : n ≤ m) : dlLoop cfg nonce n b hs seen = dlLoop cfg nonce m b hs seen := by
+  induction n generalizing m b hs seen with
+  | zero => omega
+  | succ n ih =>
+    cases m with
+    | zero => omega
+    | succ m =>
+      unfold dlLoop
+      have hsh := readLine_shrinks b hok
+      obtain ⟨_, ok', _, _⟩ := readLine_spec b hok
+      rcases hr : readLine b with ⟨l, e, b'⟩
+      rw [hr] at hsh ok'
+      simp only at hsh ok' ⊢
+      cases e with
+      | some f => rfl
+      | none =>
+        simp only
+        by_cases hl : l.isEmpty = true
+        · rw [if_pos hl, if_pos hl]
+        · rw [if_neg hl, if_neg hl]
+          cases httpParseHeaderLine l with
+          | none => rfl
+          | some kv =>
+            simp only
+            cases (dlHeader cfg nonce hs seen kv.1 kv.2).2.2 with
+            | some e => rfl
+            | none => exact ih m b' _ _ ok' (by have := hsh rfl; omega) (by omega)
+
 /-- Non-vacuity: the same request delivered whole, byte by byte, and in two pieces with the last one
     arriving together with EOF — all without empty chunks. -/
 example : Src.NoEmpty { chunks := [[71, 69, 84], [32], [47, 13, 10]], fin := .eof, dataWithFin := true } := by
